@@ -349,7 +349,7 @@ class CoxeterGroup:
             except KeyError:
                 return False
 
-        for index in zip(*np.nonzero(self.coxeter_matrix < 0)):
+        for index in zip(*np.nonzero(self.coxeter_matrix <= 0)):
             if specified(index):
                 cartan[index] = parameters[index]
                 r_index = index[::-1]
